@@ -908,6 +908,58 @@ class NArr:
     def __neg__(s):
         return NArr(s.shape, lambda p: -s._elem(p), s.labels, s.dask)
 
+    def _cmp(self, o, op):
+        if isinstance(o, (int, float)) and not isinstance(o, bool):
+            c = RVx(o)
+            a = self
+            return BArr(self.shape, lambda p: op(a._elem(p), c))
+        if isinstance(o, NArr):
+            a, b = self, o
+            return BArr(self.shape, lambda p: op(a._elem(p), b._elem(p)))
+        return NotImplemented
+
+    def __lt__(s, o):
+        return s._cmp(o, lambda x, y: x < y)
+
+    def __gt__(s, o):
+        return s._cmp(o, lambda x, y: x > y)
+
+    def __le__(s, o):
+        return s._cmp(o, lambda x, y: x <= y)
+
+    def __ge__(s, o):
+        return s._cmp(o, lambda x, y: x >= y)
+
+    def __len__(self):
+        n = self.shape[0]
+        if isinstance(n, int):
+            return n
+        raise EngineUnsupported("builtin len() of a symbolic numpy array")
+
+    def __symlen__(self):
+        return self.shape[0]
+
+    def __iter__(self):
+        if self.ndim != 1 or not isinstance(self.shape[0], int):
+            raise EngineUnsupported("iteration over a symbolic-length numpy array")
+        return iter([symx.SymVal(self._elem((z3.IntVal(i),))) for i in range(self.shape[0])])
+
+
+class BArr:
+    """boolean numpy array (result of an elementwise comparison)"""
+
+    def __init__(self, shape, elem):
+        self.shape = tuple(shape)
+        self._elem = elem
+
+    def __iter__(self):
+        if len(self.shape) != 1 or not isinstance(self.shape[0], int):
+            raise EngineUnsupported("iteration over a symbolic-length boolean array")
+        return iter([SymBool(self._elem((z3.IntVal(i),))) for i in range(self.shape[0])])
+
+    def all(self):
+        return all(iter(self))
+
 
 class NPModel:
     """model of the numpy functions used inside xgcm.gridops (bound to gridops.np)"""
@@ -975,6 +1027,14 @@ class NPModel:
         out = NArr(a.shape, lambda p: fn(*p), a.labels, a.dask)
         out.prefix_of = (a, fn)
         return out
+
+    @staticmethod
+    def diff(a, axis=-1):
+        if a.ndim != 1:
+            raise EngineUnsupported("np.diff of a non 1-D array")
+        n = a.shape[0]
+        m = mk_int(_sz(n) - 1)
+        return NArr((m,), lambda p: a._elem((p[0] + 1,)) - a._elem((p[0],)), a.labels, a.dask)
 
     @staticmethod
     def full_like(a, fill, dtype=None):
@@ -1045,11 +1105,25 @@ def apply_ufunc_model(func, args, in_core, out_core, exclude, dask, kwargs, gufu
                         raise ValueError(f"dimension {d} on an operand to apply_ufunc with dask='parallelized' consists of multiple chunks, but is also a core dimension.")
     narrs = []
     for a, core in zip(args, in_core):
-        own_b = [d for d in bdims if d in a.dims]
-        # broadcasting: missing broadcast dims are virtual (size-1 stretched); we hand every
-        # argument the full broadcast shape
-        labels = list(bdims) + list(core)
-        shape = [bsizes[d] for d in bdims] + [a.sizes[d] for d in core]
+        # xarray.broadcast_compat_data: the argument keeps its own broadcast dims (in broadcast order);
+        # a broadcast dim it lacks becomes a size-1 axis only when it lies after one it has; missing
+        # leading dims are left to numpy broadcasting; core dims come last in the listed order
+        unexpected = [d for d in a.dims if d not in bdims and d not in core]
+        if unexpected:
+            raise ValueError(f"operand to apply_ufunc encountered unexpected dimensions {unexpected!r} on an input variable: these are core dimensions on other input or output variables")
+        labels, shape = [], []
+        started = False
+        for d in bdims:
+            if d in a.dims:
+                started = True
+                labels.append(d)
+                shape.append(a.sizes[d])
+            elif started:
+                labels.append(d)
+                shape.append(1)
+        for d in core:
+            labels.append(d)
+            shape.append(a.sizes[d])
 
         def f(p, a=a, labels=labels):
             idx = {d: p[k] for k, d in enumerate(labels) if d in a.dims}
